@@ -145,7 +145,7 @@ class Gen:
         self.types: T.Dict[str, str] = {}        # variable -> 'int' | 'str' | 'bool' | 'any' | 'cfg' | 'env' | 'feat' | 'dis'
         self.tag = 0
         self.depth = 0
-        self.cfgkeys: T.Dict[str, T.Set[str]] = {}
+        self.tern = 0          # the language has no ternary inside a ternary
 
     # -- helpers
     def p(self, x: float) -> bool:
@@ -234,7 +234,12 @@ class Gen:
         cv = [v for v in self.vars_of('cfg')]
         if c < 0.9 and cv:
             return Meth(Id(self.pick(cv)), self.pick(['get', 'get_unquoted']), [Str('ki'), Int(self.r.randint(0, 5))])
-        return Tern(self.bool_expr(depth + 1), self.int_expr(depth + 1), self.int_expr(depth + 1))
+        if self.tern:
+            return Int(self.r.randint(0, 9))
+        self.tern += 1
+        t = Tern(self.bool_expr(depth + 1), self.int_expr(depth + 1), self.int_expr(depth + 1))
+        self.tern -= 1
+        return t
 
     def pathish(self, depth: int = 0) -> Node:
         c = self.r.random()
@@ -277,7 +282,12 @@ class Gen:
         ev = self.vars_of('env')
         if c < 0.97 and ev:
             return EnvGet(Id(self.pick(ev)), self.pick(ENV_NAMES))
-        return Tern(self.bool_expr(depth + 1), self.str_expr(depth + 1), self.str_expr(depth + 1))
+        if self.tern:
+            return Str(self.pick(STRS))
+        self.tern += 1
+        t = Tern(self.bool_expr(depth + 1), self.str_expr(depth + 1), self.str_expr(depth + 1))
+        self.tern -= 1
+        return t
 
     def scalar(self, ty: str) -> Node:
         return {'int': self.int_expr, 'str': self.str_expr, 'bool': self.bool_expr}[ty]()
@@ -363,7 +373,7 @@ class Gen:
             if self.p(0.4):
                 kws.append(Kw('method', Str(self.pick(['set', 'append', 'prepend']))))
             if form < 0.4:
-                return Assign(x, Call('environment', kws and [] or []))
+                return Assign(x, Call('environment', kws))
             if form < 0.6:
                 return Assign(x, Call('environment', [Str(self.pick(ENV_NAMES) + '=' + self.pick(['1', 'a=b', '']))] + kws))
             if form < 0.8:
@@ -404,8 +414,6 @@ class Gen:
         args: T.List[Node] = [self.dis_expr() if self.p(0.08) else self.bool_expr()]
         if self.p(0.6):
             args.append(Kw('error_message', Str(self.pick(EMSGS))))
-        if args[0]['k'] not in ('bool', 'not', 'and', 'or', 'cmp', 'meth', 'call', 'id'):
-            pass
         return Assign(x, Meth(Id(v), m, args))
 
     def var_stmt(self) -> Node:
